@@ -303,10 +303,18 @@ def run_case(rec, m, only=None):
         zmax = max(z_star(l) for l in lenses)
         return bad_end, (not bad_end) and e2_min_interior(om, ok, zmax) <= 0
 
-    def call(x, container):
+    def call(x, container, table=False):
         xx = x if container == "array" else [float(v) for v in x]
         cnt.reset()
         np.random.seed(int(rng.integers(2 ** 31)))
+        if table:
+            # a caller-supplied distance table that carries its own (physical) curvature entries: the physicality of the SAMPLED
+            # parameters must be judged all the same
+            from astropy.cosmology import LambdaCDM
+            zt = np.linspace(0.0, max(z_star(l) for l in lenses) + 0.5, 60)[1:]
+            ct = LambdaCDM(H0=70.0, Om0=0.3, Ode0=0.65)
+            return cl.likelihood(xx, kwargs_cosmo_interp=dict(ang_diameter_distances=ct.angular_diameter_distance(zt).value, redshifts=zt,
+                                                                ok=0.05, K=float(ct.Ok0 * (ct.H0.value / 299792.458) ** 2 * -1)))
         return cl.likelihood(xx)
 
     desc_axes = {}
@@ -333,12 +341,13 @@ def run_case(rec, m, only=None):
         rec.check(cnt.data() == 0, "C02:outside:data_evaluated:" + mode, "no data likelihood may be evaluated outside the box", inp, cnt.snapshot(), "all zero")
         rec.check(cnt.c["a2k"] == 0, "C02:outside:args2kwargs_called", "the box test precedes the unpacking of the vector", inp, cnt.snapshot(), "a2k == 0")
 
-    def check_inside(x, kind, container="array"):
-        inp = inp_of(x, expect="inside", kind=kind)
+    def check_inside(x, kind, container="array", table=False):
+        inp = inp_of(x, expect="inside", kind=kind, **(dict(distance_table_with_own_curvature=True) if table else {}))
         must_inf, interior_bad = physical(x)
+        if table and not must_inf: return None
         rec.case(dict(cos=m["cosmology"], types=m["types"], x=[float(v) for v in x]), kind="inside/" + kind + ("/unphysical" if must_inf else ""))
         try:
-            v = call(x, container)
+            v = call(x, container, table=table)
         except Exception as e:
             rec.violation("C02:inside:raises:" + type(e).__name__, "likelihood raised for a vector inside / on the edge of the box", inp,
                           repr(e)[:200] + " @ " + "".join(traceback.format_tb(e.__traceback__)[-1:]).strip()[-160:], "a real number or -inf")
@@ -374,7 +383,7 @@ def run_case(rec, m, only=None):
     if only is not None:
         x = np.array(only["x"], dtype=float)
         if only.get("expect") == "outside": check_outside(x, only.get("mode", "replay"), int(only.get("component", 0)))
-        else: check_inside(x, only.get("kind", "replay"))
+        else: check_inside(x, only.get("kind", "replay"), table=bool(only.get("distance_table_with_own_curvature")))
         return
     # ---- A: outside, each component in turn
     modes_all = ["ulp_above", "ulp_below", "rel_above", "rel_below", "far_above", "far_below", "huge_above", "huge_below", "inf_above", "inf_below"]
@@ -436,6 +445,7 @@ def run_case(rec, m, only=None):
             if io is not None: x[io] = om
             x[ik] = ok
             check_inside(x, "olcdm")
+            if k % 2 == 0: check_inside(x, "olcdm_table", table=True)
     # ---- D: NaN path of the double-source-plane likelihood (small beta, small lambda, non-integer slope)
     if "DSPL" in m["types"] and m.get("dspl_low_beta") and m["gamma_pl"].startswith("global"):
         for k in range(4):
